@@ -134,6 +134,9 @@ class SSHSession(Session):
 
     def close(self):
         self._closing.set()
+        # refuse new requests from now on: one accepted while the session thread
+        # is being joined would never be sent nor failed
+        self._connected = False
         if self._transport.is_active():
             self._transport.close()
 
